@@ -29,7 +29,7 @@ def substitute(t, pairs):
             return v
     k = t[0]
     if k == "call":
-        return ("call", t[1], tuple(substitute(a, pairs) for a in t[2]), t[3])
+        return ("call", t[1], tuple(substitute(a, pairs) for a in t[2])) + tuple(t[3:])
     if k == "aggr":
         return ("aggr", t[1], t[2], tuple((f, substitute(x, pairs)) for f, x in t[3]))
     if k in ("tuple", "array"):
